@@ -159,7 +159,7 @@ func run(cfg lib.Cfg) error {
 		for k := 0; k < nre; k++ {
 			rd := r.Range(0, 3)
 			sc.Acts = append(sc.Acts, rounds(nig, rd)...)
-			pos = min(h, pos+rd*batch)
+			pos = max(pos, min(h, pos+rd*batch))
 			// fork depth 1 .. 2*batch+1 below the position, replacement -2 .. +3 relative
 			depth := r.Range(1, 2*batch+1)
 			fork := max(1, pos-depth+1)
@@ -174,12 +174,14 @@ func run(cfg lib.Cfg) error {
 				sc.Acts = append(sc.Acts, rounds(nig, 1)...)
 				sc.Acts = append(sc.Acts, ts.Act{Do: "setver", Ver: k + 2})
 				kind = "random-reorg-mid-step"
+				pos = max(pos, min(max(h, fork-1+nl), pos+batch)) // that round may have advanced on either version
 			} else {
 				sc.Acts = append(sc.Acts, ts.Act{Do: "reorg", Fork: uint64(fork), Len: nl})
 			}
 			h = fork - 1 + nl
 			if r.Intn(2) == 0 { // nested: the next reorg arrives while the unwind is in progress
 				sc.Acts = append(sc.Acts, rounds(nig, 1)...)
+				pos = max(pos, min(h, pos+batch))
 			}
 		}
 		// the source settles: growth beyond everything recorded, then quiescence
@@ -214,7 +216,7 @@ func run(cfg lib.Cfg) error {
 		for k := 0; k < 1+r.Intn(2); k++ {
 			rd := r.Range(1, 3)
 			sc.Acts = append(sc.Acts, rounds(nig, rd)...)
-			pos = min(h, pos+rd*batch)
+			pos = max(pos, min(h, pos+rd*batch))
 			fork := max(1, pos-r.Range(0, 2*batch))
 			if fork > h {
 				fork = h
@@ -224,6 +226,7 @@ func run(cfg lib.Cfg) error {
 				sc.Acts = append(sc.Acts, ts.Act{Do: "makever", Fork: uint64(fork), Len: nl},
 					ts.Act{Do: "xswitch", K: r.Intn(5), Ver: k + 2}, ts.Act{Do: "step", Tid: 1 + r.Intn(nig)},
 					ts.Act{Do: "setver", Ver: k + 2})
+				pos = max(pos, min(max(h, fork-1+nl), pos+batch))
 			} else {
 				sc.Acts = append(sc.Acts, ts.Act{Do: "reorg", Fork: uint64(fork), Len: nl})
 			}
